@@ -85,13 +85,13 @@ impl Shadow {
         stack.extend(ar.root_zst);
         stack.extend(ar.resurrected.iter().copied());
         while let Some(i) = stack.pop() {
+            // (a bare root has no set object: its id names nothing)
+            let Some(o) = self.objs.get(&i) else { continue };
             if !seen.insert(i) {
                 continue;
             }
-            if let Some(o) = self.objs.get(&i) {
-                for c in o.strong.iter().flatten() {
-                    stack.push(*c);
-                }
+            for c in o.strong.iter().flatten() {
+                stack.push(*c);
             }
         }
         seen
@@ -168,7 +168,7 @@ impl Shadow {
     /// The SetInner object of a set, if the set exists.
     pub fn set_inner(&self, a: Aid, s: SetRef) -> Option<Id> {
         match s {
-            SetRef::Root => Some(self.arena(a).root_set_inner),
+            SetRef::Root => Some(self.arena(a).root_set_inner).filter(|i| self.objs.contains_key(i)),
             SetRef::Holder(h) => self.objs.get(&h).filter(|o| o.kind == Kind::SetHolder && o.arena == a).and_then(|o| o.strong[0]),
         }
     }
